@@ -360,6 +360,9 @@ def worker_main(args):
                 budget = int(os.environ.get("VERIF_BUDGET", w.mod.BUDGET[args.tier]))
                 if budget > 0:
                     w.run_random(budget)
+            extra_phase = getattr(w.mod, "run_extra", None)
+            if extra_phase is not None and args.mode in ("all", "random"):
+                extra_phase(w)
             # shrink unknown buckets found by the random phase
             todo = [b for b, e in w.failures.items()
                     if b not in known and not b.startswith("crash")
